@@ -35,7 +35,7 @@ def snapshot(drivers, specs):
         for ga, va, g, v in D.locate(spec):
             vec = D.vector_of(drv, ga, va)
             for e in v["elements"]:
-                snap[(spec["name"], v["name"], e["name"])] = fullstack.norm_blob(getattr(vec, e["attr"]).value)
+                snap[(spec["name"], v["name"], e["name"])] = fullstack.norm_blob(D.element_in(vec, e["attr"]).value)
             snap[(spec["name"], v["name"], "<state>")] = vec.state_
             snap[(spec["name"], v["name"], "<enabled>")] = vec.enabled
     return snap
